@@ -131,10 +131,12 @@ def lemmas(ctx):
 
 
 def run(ctx):
+    from . import lean as _lean
+    _lean.require(ctx, "Sums.lean", ['prefix_unique', 'sum_cong_rule', 'sum_prefix_nonneg', 'sum_pos_rule', 'sum_scale', 'sum_add', 'sum_sub'])
     main(ctx, True)
     main(ctx, False)
     empty(ctx)
     lemmas(ctx)
     ctx.trust("np.logaddexp.reduce = log sum exp", "np.concatenate/np.array contracts on history lists (pyvc/symlist.py)",
               "wf_history: every history list has T entries and batch t has n_t>=1 rows under every key (established by commit_current_to_history, C17)",
-              "L-SUM lemmas; T-REAL exp/log axioms", "rounding not modelled (A1): finiteness is an interval argument over reals")
+              "L-SUM rules: each statement is machine-checked in Lean/Mathlib over Finset sums (lemmas/Sums.lean; prefix_unique identifies the prefix function with the finite sum); what stays trusted is the transcription of those statements into the z3 axioms/rules of pyvc/theories/sums.py", "T-REAL exp/log axioms", "rounding not modelled (A1): finiteness is an interval argument over reals")
